@@ -34,6 +34,9 @@ func main() {
 		&lib.Prop{ID: "C09", Part: "shared", Level: "exploration", NCases: n(150, 4000), Run: c09Shared,
 			Assumptions: []string{"a source database whose object is dropped BEFORE its successors are open is a dead process (pinned, no cleanup runs); in two thirds of the cases the source object is dropped in process once its successors are open (an in-place redeploy keeps the old database referenced until dkv.Open returned) and collected", "ownership policy of the harness mirrors the operator partition: exclusive unless a live peer's NeedsTable says true"},
 			Rule:        "2..3 databases restored from one checkpoint of a source database (state in SST files), each owning a hash share of the keys and sharing the checkpoint's tables; they write, compact the shared tables away, take job checkpoints (same id everywhere), receive retention updates that drop the shared checkpoint, with forced GC rounds; after every such step the reference set of ALL live databases is checked as in part single and every database's owned rows are compared with its model; every table of every checkpoint handle a database was restored from must be reported by its NeedsTable; scale-in phase: the databases become dead processes and two successors are restored from two of their checkpoints each (other-process views of the storage); non-trivial = >3 reference checks; distinct by (options, n, ops) hash"},
+		&lib.Prop{ID: "C09", Part: "scale-in-own-dir", Level: "exploration", NCases: n(120, 3000), Run: c09ScaleInOwnDir,
+			Assumptions: []string{"an operator id (= working directory) may be reused by the process that takes over after a scale-in (Options.ID, a restarted worker): the merged checkpoint then names files of the successor's own directory", "a job checkpoint that only one operator reached is aborted by the job; its database keeps it until the next retention update"},
+			Rule:        "part shared with the scale-in phase always run in its rarest shape: one of the 2..3 databases first takes 1..3 checkpoints the others never reach (its WAL numbers run ahead), all take the scale-in checkpoint and die, the in-process successor is opened from two handles (seeded order) IN THE DIRECTORY of one of its predecessors, works on, takes 0..3 job checkpoints while the inherited checkpoint is still retained and one more after which only that one is retained; the reference set (existence + content hash since first referenced) is checked after every step, inherited WALs must be gone at the end, owned rows are compared with the model; non-trivial = >3 reference checks; distinct by (options, n, ops) hash"},
 		&lib.Prop{ID: "C09", Part: "late-answer", Level: "exploration", NCases: n(30, 600), Run: c09LateAnswer,
 			Assumptions: []string{"forced GC rounds: a cleanup that has not run yet can only hide a violation, never fabricate one (a case in which no cleanup asked is counted as trivial)"},
 			Rule:        "a database writes tables and takes checkpoint 1; a second database is opened from it with neighbours that answer slowly; both objects are dropped one after the other and collected until the second one's table cleanup waits for the neighbours' answer; a third database of the same process opens the still retained checkpoint; then the answer 'nobody needs the table' arrives. Every file of checkpoint 1 must still exist, the third database and a fourth one opened afterwards read every key; non-trivial = a cleanup was waiting for its answer when the third database was opened; distinct by (fs, memtable, puts)"},
